@@ -102,6 +102,27 @@ def inst_C07(profile):
 COMP = {"dna", "iupac", "mdna", "miupac", "degen"}
 
 
+def inst_C09(profile):
+    oks = "(codec_okb_sound @C @INST)"
+    f = okb_lift(["C09.C09_rotate_left @C " + oks, "C09.C09_rotate_right @C " + oks,
+                  "C09.C09_push_right @C " + oks, "C09.C09_push_left @C " + oks,
+                  "C09.C09_results_canonical @C " + oks])
+    obs = f(profile)
+    # reverse: the generic route for every codec that is not 2 bits wide, the table route for DNA
+    for c in CODECS:
+        if c != "dna":
+            obs.append({"name": "%s is not 2 bits wide (generic k-mer reversal applies)" % c,
+                        "expr": "negb (Nat.eqb (c_bits %s) 2)" % c})
+    obs.append({"name": "dna is 2 bits wide (table k-mer reversal, complement by xor apply)",
+                "expr": "Nat.eqb (c_bits dna) 2"})
+    # the xor complement of the k-mer is the codec's complement on every DNA symbol
+    obs.append({"name": "flipping both bits of a DNA symbol is the codec complement",
+                "expr": "forallb (fun x => opt_eqb (comp_sym dna x) (Some (comp2 x))) (c_items dna)"})
+    obs.append({"name": "the 2-bit block table of Kmer::rev, observed through the API on all 256 values of a 4-mer",
+                "expr": "olist_eqb rev2bit_k4 (map (fun b => Some (rev2bit_byte b)) bytes256)"})
+    return obs
+
+
 def inst_C20(profile):
     obs = okb(profile)
     for c in ("mdna", "miupac"):
@@ -132,7 +153,8 @@ def inst_C20(profile):
 
 
 PROOF_IMPORTS = ["Bits", "Codec", "Tables", "Spec", "Derive", "C05Check", "SeqModel", "SeqProofs", "SeqProofs2",
-                 "SymMap", "C20Check"]
+                 "SymMap", "C20Check", "IterProofs", "KmerModel", "KmerProofs", "KmerProofs2", "OrderProofs",
+                 "OrderKmer", "Rev2Bit", "KmerDna"]
 
 C05_THEOREMS = ["C05_tables_consistent", "C05_dna_alphabet", "C05_iupac_nucleotide_sets", "C05_amino_codons",
                 "C05_text_literal_bytes", "C05_degenerate_strong_weak", "C05_complement_letters"]
@@ -150,14 +172,30 @@ REGISTRY = {
                 instances=okb_lift(["C01.C01_parse_one_symbol_per_byte @C (codec_okb_sound @C @INST)",
                                     "C01.C01_display_parse_roundtrip @C (codec_okb_sound @C @INST)"]),
                 generators=[(c, P.gen_C01) for c in ALL]),
-    "C02": dict(theorems=[], instances=okb, generators=[(c, P.gen_C02) for c in ALL]),
+    "C02": dict(theorems=theorems_of("C02"), imports=PROOF_IMPORTS,
+                extra_imports=["From BioSeqProps Require Import C02."],
+                instances=okb_lift(["C02.C02_equal_iff_same_symbols @C (codec_okb_sound @C @INST)",
+                                    "C02.C02_equal_to_text @C (codec_okb_sound @C @INST)",
+                                    "C02.C02_kmer_equals_sequence @C debug_assertions (codec_okb_sound @C @INST)",
+                                    "C02.C02_kmer_hashes_like_slice @C (codec_okb_sound @C @INST)"]),
+                generators=[(c, P.gen_C02) for c in ALL]),
     "C03": dict(theorems=theorems_of("C03"), imports=PROOF_IMPORTS,
                 extra_imports=["From BioSeqProps Require Import C03."],
                 instances=okb_lift(["C03.C03_range_out_of_bounds_panics @C (codec_okb_sound @C @INST)",
                                     "C03.C03_nth_in_bounds @C (codec_okb_sound @C @INST)",
                                     "C03.C03_get @C (codec_okb_sound @C @INST)"]),
                 generators=[(c, P.gen_C03) for c in ALL]),
-    "C04": dict(theorems=[], instances=okb, generators=[(c, P.gen_C04) for c in ALL]),
+    "C04": dict(theorems=theorems_of("C04"), imports=PROOF_IMPORTS,
+                extra_imports=["From BioSeqProps Require Import C04."],
+                instances=okb_lift(["C04.C04_slice_to_integer @C (codec_okb_sound @C @INST)",
+                                    "C04.C04_kmer_value_canonical @C (codec_okb_sound @C @INST)",
+                                    "C04.C04_kmer_decodes_to_symbols @C (codec_okb_sound @C @INST)",
+                                    "C04.C04_from_raw_roundtrip @C (codec_okb_sound @C @INST)"]),
+                assumptions=["'the word image exported by an owned sequence starts at bit 0 of word 0 however the "
+                             "sequence was produced' is an invariant of the repaired code (fix 2decdba) that the model "
+                             "takes as its representation (an owned value is its live bits); it is the correspondence "
+                             "(intoraw observations after every kind of producer) that ties it to the code"],
+                generators=[(c, P.gen_C04) for c in ALL]),
     "C06": dict(theorems=theorems_of("C06"), imports=PROOF_IMPORTS,
                 extra_imports=["From BioSeqProps Require Import C06."],
                 instances=okb_lift(["C06.C06_insert @C (codec_okb_sound @C @INST)",
@@ -169,10 +207,27 @@ REGISTRY = {
     "C07": dict(theorems=theorems_of("C07"), imports=PROOF_IMPORTS,
                 extra_imports=["From BioSeqProps Require Import C07."],
                 instances=inst_C07, generators=[(c, P.gen_C07) for c in ALL]),
-    "C08": dict(theorems=[], instances=okb, generators=[(c, P.gen_C08) for c in ALL]),
-    "C09": dict(theorems=[], instances=okb, generators=[(c, P.gen_C09) for c in ALL]),
-    "C10": dict(theorems=[], instances=okb, generators=[(c, P.gen_C10) for c in ALL]),
-    "C11": dict(theorems=[], instances=okb, generators=[(c, P.gen_C11) for c in ALL]),
+    "C08": dict(theorems=theorems_of("C08"), imports=PROOF_IMPORTS,
+                extra_imports=["From BioSeqProps Require Import C08."],
+                instances=okb_lift(["C08.C08_kmers_enumerated @C debug_assertions (codec_okb_sound @C @INST)",
+                                    "C08.C08_kmers_are_windows @C debug_assertions (codec_okb_sound @C @INST)",
+                                    "C08.C08_from_slice @C debug_assertions (codec_okb_sound @C @INST)",
+                                    "C08.C08_from_text_ok @C debug_assertions (codec_okb_sound @C @INST)",
+                                    "C08.C08_back_to_sequence @C (codec_okb_sound @C @INST)"]),
+                generators=[(c, P.gen_C08) for c in ALL]),
+    "C09": dict(theorems=theorems_of("C09"), imports=PROOF_IMPORTS,
+                extra_imports=["From BioSeqProps Require Import C09."],
+                instances=inst_C09,
+                generators=[(c, P.gen_C09) for c in ALL]),
+    "C10": dict(theorems=theorems_of("C10"), imports=PROOF_IMPORTS,
+                extra_imports=["From BioSeqProps Require Import C10."],
+                instances=okb,
+                generators=[(c, P.gen_C10) for c in ALL]),
+    "C11": dict(theorems=theorems_of("C11"), imports=PROOF_IMPORTS,
+                extra_imports=["From BioSeqProps Require Import C11."],
+                instances=okb_lift(["C11.C11_forward_iteration @C (codec_okb_sound @C @INST)", "C11.C11_reverse_iteration @C (codec_okb_sound @C @INST)",
+                                    "C11.C11_windows @C (codec_okb_sound @C @INST)", "C11.C11_chunks @C (codec_okb_sound @C @INST)"]),
+                generators=[(c, P.gen_C11) for c in ALL]),
     "C12": dict(theorems=[], instances=okb, generators=[("iupac", P.gen_C12)]),
     "C13": dict(theorems=[], instances=okb, generators=[("dna", P.gen_C13)]),
     "C14": dict(theorems=[], instances=okb, generators=[("iupac", P.gen_C14)]),
